@@ -209,7 +209,9 @@ pub fn install_panic_hook() {
                 *p = Some(format!("panic at {loc}: {msg}"));
             }
         });
-        if !QUIET.with(|q| *q.borrow()) {
+        // scripted panics of generated programs (on whatever thread they run) and their propagation are not news
+        let scripted = msg.starts_with("scripted panic") || msg.starts_with("one of the tasks panicked");
+        if !scripted && !QUIET.with(|q| *q.borrow()) {
             default(info);
         }
     }));
